@@ -1,8 +1,9 @@
 #!/usr/bin/env python3
 """C04 — statically ill-formed programs are never accepted.
 Proof: coq/Props/C04.v (declarative static semantics `wf` of a core of DDP; the algorithm of
-resolver+typechecker `check`; soundness of the patched algorithm, refutation + partial soundness of
-the pinned one, completeness on the core, every injected fault makes a program ill-formed).
+resolver+typechecker `check` as it is in /repo now: check p = [] <-> wf p; a general soundness /
+completeness theorem for every setting of the four former defects ("quirks"); every injected fault
+makes a program ill-formed; regression facts about the pinned tree).
 Tie: generated well-formed core programs and ALL single-fault mutants Coq's own injector
 (MiniMutate.mutants, extracted) produces for 16 fault classes; every program is rendered to DDP and
 parsed by the real frontend (parsex); a mutant the frontend accepts is the violation (judged by an
@@ -698,7 +699,7 @@ class Gen:
         """a fresh name, or (sometimes) the name of an outer variable that this scope has not used yet"""
         r = self.rng
         if len(G) > 1 and r.random() < 0.3:
-            outer = [x for sc in G[1:] for x, b in sc.items() if b[0] in ("var", "const") and x not in G[0] and x not in self.used[id(G[0])]]
+            outer = [x for sc in G[1:] for x, b in sc.items() if b[0] in ("var", "const") and x not in G[0]]
             if outer:
                 self.bump("shadow")
                 return r.choice(outer)
@@ -725,14 +726,11 @@ class Gen:
         t = r.choice(["Z", "Z", "K", "B", "W", "C", "T", "T", ["L", "Z"], ["L", "T"]])
         x = self.decl_name(G, t)
         old = self.spec.lookup(G, x)
-        # the initialiser is outside the scope of x; the pinned frontend evaluates it with x already
-        # declared, so a well-formed use of a shadowed x of another type would be (falsely) rejected
-        self.hide = {x} if old is not None and old[1] != t else None
+        # the initialiser is outside the scope of x: it may use an outer x, also of another type
         src = t
         if t in NUMERIC and r.random() < 0.3:
             src = r.choice(NUMERIC)           # implicit numeric conversion
         e = self.expr(F, G, src, r.choice([0, 1, 1, 2, 3]))
-        self.hide = None
         G[0][x] = ("var", t)
         return ["svar", self.spec.gender(t), t, x, e]
 
@@ -920,6 +918,7 @@ def run_model(model, lines):
 
 
 QUIRKS = ["void_eq", "void_ret", "tc_by_name", "field_unimported"]
+CURRENT = "0000"     # the setting MiniCheck.current: all four defects repaired (ec4b99d, 328cc02, 4309fac, 581329c)
 
 
 def flag_combos():
@@ -1262,11 +1261,11 @@ def main():
             codes[it["code"]] = codes.get(it["code"], 0) + 1
             if it["line"] > 2 and kind == "mutant":
                 ck.nontrivial(hashlib.sha1(it["src"].encode()).hexdigest())
-    # Which variant of the algorithm model is the frontend?  `pinned` (all four quirks) is the tree the theorems
-    # C04_check_sound_refuted/_partial describe; after (some of) the proposed patches it is check_with of another
-    # switch setting, which C04_check_with_sound / C04_check_with_complete cover for EVERY setting.  A frontend that
-    # agrees with no setting at all is a broken correspondence.
-    variant = "1111"
+    # Which variant of the algorithm model is the frontend?  `current` (all four defects repaired) is the tree
+    # C04_check_sound / C04_check_complete describe.  If a repair is lost the frontend is check_with of another switch
+    # setting (covered by C04_check_with_sound for EVERY setting) and the accepted ill-formed programs are reported as
+    # violations with the quirk as key.  A frontend that agrees with no setting at all is a broken correspondence.
+    variant = CURRENT
     if mismatch:
         probe = [it for it in results if it["ast"] is not None and ((it["check"] == "-") != (it["patched"] == "-") or it in mismatch)]
         settings = ["".join("1" if (k >> i) & 1 else "0" for i in range(4)) for k in range(15, -1, -1)]
@@ -1277,7 +1276,7 @@ def main():
                 ok.append(fl)
         if ok:
             variant = ok[0]
-            log("[c04] the frontend no longer behaves as the pinned model; it agrees with check_with(void_eq,void_ret,tc_by_name,field_unimported = %s) on all %d programs" % (variant, len(results)))
+            log("[c04] the frontend does not behave as the current model (MiniCheck.current); it agrees with check_with(void_eq,void_ret,tc_by_name,field_unimported = %s) on all %d programs" % (variant, len(results)))
             mismatch = []
         else:
             it = mismatch[0]
@@ -1286,8 +1285,8 @@ def main():
                                      ("accepts" if it["check"] == "-" else "rejects with " + it["check"], "accepts" if it["acc"] else "rejects with code %s" % it["code"],
                                       it["kind"], it["fault"], it["site"]),
                                      json.dumps(dict(source=it["src"], module=it["modtext"], prog=sx(it["ast"]) if it["ast"] else None), ensure_ascii=False))
-    if variant != "1111":
-        # a patched frontend reports the first diagnostic of the patched model where the two models differ
+    if variant != CURRENT:
+        # a frontend of another setting may report the first diagnostic of the pinned model where the two models differ
         first_diag_bad = [x for x in first_diag_bad if not x[3]]
     if first_diag_bad and not ck.violations and not mismatch:
         d0, code, src, _ = first_diag_bad[0]
